@@ -21,16 +21,35 @@ def findings():
 
 
 def seeds():
-    p = os.path.join(V, 'seeded', 'DETECTION.json')
+    """one line per seed, from the last full self-test (selftest/RESULT.json) and seeded/HISTORY.json"""
+    p = os.path.join(V, 'selftest', 'RESULT.json')
     if not os.path.exists(p):
-        return '(not run yet)'
+        return '(self-test not run yet)'
     d = json.load(open(p))
-    out = ['Run against /repo HEAD %s by `tools/seed_table.py`.' % d['repo_head'], '', '| seed | kind | what was changed | reported by (rule: construct) | how it fared |', '|---|---|---|---|---|']
+    hist = json.load(open(os.path.join(V, 'seeded', 'HISTORY.json')))
+    by_seed: dict = {}
     for r in d['rows']:
-        rep = '; '.join('%s: `%s`' % (x['rule'], x['construct']) for x in r.get('reports', [])[:3]) or ('silent, exit %s' % r.get('exit'))
-        if not r.get('as_expected', False):
-            rep = '**UNEXPECTED** ' + rep
-        out.append('| %s | %s | %s | %s | %s |' % (r['seed'], r['kind'], re.sub(r'^C\d\d\s*/\s*\w+\s*[-—–:]+\s*', '', r.get('title', '')).replace('|', '\\|'), rep.replace('|', '\\|'), r.get('history', '').replace('|', '\\|')))
+        if r['name'].startswith('seed:'):
+            by_seed.setdefault(r['name'][5:], []).append(r)
+    out = ['From the self-test run against /repo HEAD %s.' % d['repo_head'], '', '| seed | kind | what was changed | result today | how it fared the first time |', '|---|---|---|---|---|']
+    for name in sorted(by_seed):
+        rows = by_seed[name]
+        own = name.split('_')[0]
+        notes = os.path.join(V, 'seeded', name, 'notes.md')
+        title = open(notes).readline().strip().lstrip('# ').strip() if os.path.exists(notes) else ''
+        title = re.sub(r'^C\d\d\s*/\s*\w+\s*[-\u2014\u2013:]+\s*', '', title)
+        if rows[0]['kind'] == 'mutant':
+            r = [x for x in rows if x['prop'] == own][0]
+            if r['status'] == 'killed':
+                res = 'reported: ' + '; '.join(sorted({x.split(' :: ')[0] for x in r.get('reports', [])}))[:160]
+            else:
+                res = '**not reported by %s** (%s)' % (own, r['status'])
+            kind = 'break'
+        else:
+            bad = [x for x in rows if x['status'] != 'silent']
+            res = 'silent for all %d checks' % len(rows) if not bad else '**alarm**: ' + ', '.join('%s %s' % (x['prop'], x['status']) for x in bad)
+            kind = 'neutral'
+        out.append('| %s | %s | %s | %s | %s |' % (name, kind, title.replace('|', '\\|')[:140], res.replace('|', '\\|'), hist.get(name, '').replace('|', '\\|')))
     return '\n'.join(out)
 
 
